@@ -1,5 +1,5 @@
 """C15 — displayed text denotes the value, and the re-entry text round-trips."""
-import io, re, ast, math, os, datetime, struct
+import io, re, math, os, datetime, struct
 from fractions import Fraction
 from decimal import Decimal
 import core
@@ -10,7 +10,7 @@ LEAN_MODULES = ["KaVerif.Props.C15"]
 GEN = []
 THEOREMS = ["KaVerif.C15_int_full", "KaVerif.C15_frac", "KaVerif.C15_float_round", "KaVerif.C15_float_text",
             "KaVerif.C15_float", "KaVerif.C15_precision_total", "KaVerif.C15_approx_total",
-            "KaVerif.C15_reentry_exact_partial", "KaVerif.C15_qty", "KaVerif.C15_array", "KaVerif.C15_interval"]
+            "KaVerif.C15_reentry_exact_partial", "KaVerif.C15_reentry_qty_partial", "KaVerif.C15_qty", "KaVerif.C15_array", "KaVerif.C15_interval"]
 RULE = ("values of every displayable kind (int, Fraction, float, Quantity with each magnitude kind, Array, Interval, str, "
         "Instant), arrays nested to depth 3; ints up to 5000 digits, fractions with whole part 0 / >=1 / negative / huge, "
         "floats by random bit pattern across 1e-300..1e300 plus subnormals, exact rounding ties (k+0.5, 2.5e-5, 999999.5, "
@@ -20,8 +20,8 @@ RULE = ("values of every displayable kind (int, Fraction, float, Quantity with e
         "random doubles; oracle: an independent reader of the shown text, and real re-evaluation of the re-entry text in a "
         "fresh environment; non-trivial = not a bare small int; distinct = distinct (value, precision)")
 ASSUMPTIONS = [
-    "CPython's float.__format__ ('g'), repr(float), str(int), str(Fraction), datetime.isoformat are modelled, not verified "
-    "(the %g and repr models are corresponded on random doubles)",
+    "CPython's float.__format__ ('g'), str(int), str(Fraction), datetime.isoformat are modelled, not verified "
+    "(the %g model is corresponded on random doubles)",
     "the set of result values is what the evaluator can return: strings are those the lexer can produce, interval bounds are numbers, "
     "dimension exponents are integers",
     "a re-entered dimensionless quantity may come back as the bare number (DESIGN C15 interpretation), and a float may come back "
@@ -723,20 +723,6 @@ def interval_float_bound(k, v):
 
 
 # ----------------------------------------------------------------------------------------------
-def interval_display_variant():
-    """which code shape display_result has for intervals: does it test isinstance(r, Interval)?  (read from the source's ast)"""
-    src = open(os.path.join(core.REPO, "src", "ka", "interpret.py"), encoding="utf-8").read()
-    tree = ast.parse(src)
-    for node in ast.walk(tree):
-        if isinstance(node, ast.FunctionDef) and node.name == "display_result":
-            for n in ast.walk(node):
-                if isinstance(n, ast.Call) and getattr(n.func, "id", "") == "isinstance" and len(n.args) == 2:
-                    names = [getattr(x, "id", "") for x in (n.args[1].elts if isinstance(n.args[1], ast.Tuple) else [n.args[1]])]
-                    if "Interval" in names:
-                        return 1
-    return 0
-
-
 class Precision:
     """set ka.config.CONFIG['precision'] in-process and restore it afterwards"""
     def __init__(self, R):
@@ -803,19 +789,18 @@ def check(ctx):
     R = ctx.real
     k = K(R)
     prec = Precision(R)
-    ivs = interval_display_variant()
     names_sx = "(names %s)" % " ".join("(%s)" % cps(n) for n in k.names)
     I = R.interpret
     DEFAULT_PRECISION[0] = prec.cfg.ConfigProperties.PRECISION.default
     try:
-        _check(ctx, rng, R, k, prec, ivs, names_sx, I)
+        _check(ctx, rng, R, k, prec, names_sx, I)
     finally:
         prec.restore()
 
 
-def _check(ctx, rng, R, k, prec, ivs, names_sx, I):
+def _check(ctx, rng, R, k, prec, names_sx, I):
     # ------------------------------------------------------------------ 1. %g on doubles
-    fmt_cases, repr_cases = [], []
+    fmt_cases = []
     nf = ctx.n(6000, 80000)
     floats = list(TIES) + [-x for x in TIES[:20]] + [0.0, -0.0]
     while len(floats) < nf:
@@ -837,10 +822,7 @@ def _check(ctx, rng, R, k, prec, ivs, names_sx, I):
                                   r[1], "ka.config.CONFIG['precision']=%s; ka.interpret.precisionify_float(%r)" % (N, x))
             else:
                 ctx.violation("display:float-raises", "precision=%s float=%r" % (N, x), "text", r[1], "precisionify_float")
-        if i % 5 == 0:
-            repr_cases.append(("reprf %d" % bits_of(x), "ok " + repr(x), dict(x=repr(x))))
     ctx.correspond("fmt", fmt_cases, describe=lambda i: "%s @%s" % (i["x"], i["N"]))
-    ctx.correspond("reprf", repr_cases, describe=lambda i: i["x"])
 
     prec.set(6)
 
@@ -898,7 +880,7 @@ def _check(ctx, rng, R, k, prec, ivs, names_sx, I):
         ctx.sample(dict(input=desc[:100], precision=N, shown=shown[:100]))
 
         # ---- correspondence: exact text of display and of both stringify variants
-        disp_cases.append(("display (req %d %d %d %s %s)" % (nreq(N), 1 if brackets else 0, ivs, names_sx, vsx), "ok " + esc(shown),
+        disp_cases.append(("display (req %d %d %s %s)" % (nreq(N), 1 if brackets else 0, names_sx, vsx), "ok " + esc(shown),
                            dict(desc=desc[:200], N=N)))
         if text is not None:
             # execute() and display_result must print the same thing for the same value
@@ -962,6 +944,5 @@ def _check(ctx, rng, R, k, prec, ivs, names_sx, I):
     prec.set(6)
     ctx.cov["reentry_evaluations"] = n_reentry
     ctx.cov["kinds_seen"] = sorted(kinds_seen)
-    ctx.cov["interval_display_variant"] = "stringify_result" if ivs else "Interval.__str__"
     ctx.correspond("display", disp_cases, describe=lambda i: "%s @%s" % (i["desc"], i["N"]))
     ctx.correspond("stringify", str_cases, describe=lambda i: "%s @%s" % (i["desc"], i["N"]))
